@@ -1,6 +1,7 @@
 package rules
 
 import (
+	"go/token"
 	"fmt"
 	"go/constant"
 	"go/types"
@@ -83,21 +84,17 @@ func loopCount(fn *ssa.Function, i ssa.Instruction, field string) string {
 	if l == nil {
 		return "1"
 	}
-	for _, cd := range core.Conds(fn) {
-		if cd.Block != l.Header {
+	for _, cl := range countedLoops(fn) {
+		if cl.loop.Header != l.Header {
 			continue
 		}
-		if k, ok := core.ConstInt(cd.Y); ok {
-			// counted loop from 0 with < k
-			if phi, isPhi := cd.X.(*ssa.Phi); isPhi && len(phi.Edges) == 2 {
-				if z, ok := core.ConstInt(phi.Edges[0]); ok && z == 0 {
-					return fmt.Sprint(k)
-				}
-			}
-			return "?"
+		if k, ok := cl.tripCount(); ok {
+			return fmt.Sprint(k)
 		}
-		if x, isLen := core.IsLenOf(cd.Y); isLen && fieldOfPath(core.PathOf(x)) == field {
-			return "all"
+		if x, isLen := core.IsLenOf(cl.bound); isLen && fieldOfPath(core.PathOf(x)) == field {
+			if z, isZ := core.ConstInt(cl.init); isZ && z == 0 && cl.step == 1 && cl.op == token.LSS {
+				return "all"
+			}
 		}
 	}
 	return "?"
@@ -231,7 +228,26 @@ func (c *Ctx) readerLayout(fn *ssa.Function, depth int) ([]layoutEvent, []string
 			bad = append(bad, "decoded value dropped at "+c.P.Pos(call.Pos()))
 			continue
 		}
-		reach := core.ReachFrom([]ssa.Value{res}, through)
+		// the decoded value may be placed into an element of a local slice that is stored into the field afterwards
+		roots := []ssa.Value{res}
+		reach := core.ReachFrom(roots, through)
+		for round := 0; round < 4; round++ {
+			grew := false
+			core.AllInstrs(fn, func(i ssa.Instruction) {
+				if st, ok := i.(*ssa.Store); ok && reach[st.Val] {
+					if ia, ok := st.Addr.(*ssa.IndexAddr); ok && !reach[ia.X] {
+						if _, isParam := ia.X.(*ssa.Parameter); !isParam {
+							roots = append(roots, ia.X)
+							grew = true
+						}
+					}
+				}
+			})
+			if !grew {
+				break
+			}
+			reach = core.ReachFrom(roots, through)
+		}
 		fields := map[string]bool{}
 		core.AllInstrs(fn, func(i ssa.Instruction) {
 			if st, ok := i.(*ssa.Store); ok && reach[st.Val] {
